@@ -252,18 +252,21 @@ Definition encap_proto (b : builder) : encap_msg :=
 Definition resolve (st : store) (r : bid) : encap_msg :=
   match sget st r with Some b => encap_proto b | None => encap0 end.
 
-Definition body_msg (st : store) (b : nh_body bid) : nh_body encap_msg :=
+(* the message is built with whatever the header builders hold at that moment ([res]) *)
+Definition body_with (res : bid -> encap_msg) (b : nh_body bid) : nh_body encap_msg :=
   MkBody (nb_ip b) (nb_ifref b) (nb_mac b) (nb_ipinip b) (nb_ni b) (nb_pop b) (nb_pushed b)
-         (map (fun kh => (fst kh, resolve st (snd kh))) (nb_encap b)) (nb_decap b) (nb_encapsulate b).
+         (map (fun kh => (fst kh, res (snd kh))) (nb_encap b)) (nb_decap b) (nb_encapsulate b).
 
-Definition payload_of (st : store) (pb : ebody) : payload :=
+Definition payload_with (res : bid -> encap_msg) (pb : ebody) : payload :=
   match pb with
   | EIPv4 m => PIPv4 m
   | EIPv6 m => PIPv6 m
   | ELabel m => PLabel m
-  | ENH s => PNH (MkNh (ns_index s) (if ns_present s then Some (body_msg st (ns_body s)) else None))
+  | ENH s => PNH (MkNh (ns_index s) (if ns_present s then Some (body_with res (ns_body s)) else None))
   | ENHG m => PNHG m
   end.
+
+Definition payload_of (st : store) (pb : ebody) : payload := payload_with (resolve st) pb.
 
 (* OpProto: Id and Op are left at their zero values *)
 Definition op_proto (st : store) (e : entry_b) : op_msg := MkOp 0 (b_ni e) 0 (b_elec e) (payload_of st (b_pb e)).
